@@ -723,4 +723,191 @@ example :
       = .entry 5 [99999100000100001] := by
   refine ⟨src_dump_roundtrip _, by decide +kernel⟩
 
+/-! ### statement audit: what the driver executes is the model of the theorems; shape of the returned array -/
+
+/-- the memoised distance of the driver (`distTable`: each `dist2 S j i`, `j < i`, evaluated once) is `dist2`. -/
+theorem tableDist_eq (S : Sys) (u v : Nat) (hu : u < S.natoms) (hv : v < S.natoms) (huv : u ≠ v) :
+    tableDist (distTable S) u v = dist2 S u v := by
+  unfold tableDist distTable
+  by_cases h : u < v
+  · simp [h, hv, Array.getD]
+  · have h' : v < u := by omega
+    simp [h, h', hu, Array.getD]
+    exact dist2_symm S v u
+
+/-- **table_accept_as_modelled**: the acceptance test the driver runs (`tableAccept` on the memoised table) is `accept`, the
+    test of the theorems, on every pair of atom indices. -/
+theorem table_accept_as_modelled (S : Sys) (c2 : ℚ) (uv : Nat × Nat) (h1 : uv.1 < S.natoms) (h2 : uv.2 < S.natoms) :
+    tableAccept (distTable S) c2 uv = accept S c2 uv := by
+  unfold tableAccept accept
+  by_cases e : uv.1 = uv.2
+  · simp [e]
+  · rw [tableDist_eq S uv.1 uv.2 h1 h2 e, Bool.and_comm]
+
+theorem runLW_congr (acc acc' : Nat × Nat → Bool) (n : Nat) (cs : List (Nat × Nat)) (h : ∀ uv ∈ cs, acc uv = acc' uv) :
+    runLW acc n cs = runLW acc' n cs := by
+  unfold runLW
+  generalize List.replicate n [] = rows
+  induction cs generalizing rows with
+  | nil => rfl
+  | cons uv cs ih =>
+    rw [foldl_cons, foldl_cons]
+    have : stepLW acc rows uv = stepLW acc' rows uv := by unfold stepLW; rw [h uv mem_cons_self]
+    rw [this]
+    exact ih (fun x hx => h x (mem_cons_of_mem _ hx)) _
+
+theorem runAW_congr (junk : Nat → Nat → Nat) (init delta : Nat) (acc acc' : Nat × Nat → Bool) (n : Nat) (cs : List (Nat × Nat))
+    (h : ∀ uv ∈ cs, acc uv = acc' uv) : runAW junk init delta acc n cs = runAW junk init delta acc' n cs := by
+  unfold runAW
+  generalize initA junk n init = st
+  induction cs generalizing st with
+  | nil => rfl
+  | cons uv cs ih =>
+    rw [foldl_cons, foldl_cons]
+    have : stepAW junk delta acc st uv = stepAW junk delta acc' st uv := by unfold stepAW; rw [h uv mem_cons_self]
+    rw [this]
+    exact ih (fun x hx => h x (mem_cons_of_mem _ hx)) _
+
+/-- **driver_pipeline_as_modelled**: the computation of the driver's `nlist` request — pairs read from the capacity bin table
+    filled as coded, acceptance from the memoised table, per-atom capacity rows with `initialsize` / `deltasize ≥ 1` and
+    whatever `np.empty` leaves — is `nlistCall` of the theorems; read through `[i]` it gives the lists `nlistL`, with one row of
+    width `maxneighbors + 1` per atom and `coord` = the list length. -/
+theorem driver_pipeline_as_modelled (junk : Nat → Nat → Nat) (init delta : Nat) (hd : 1 ≤ delta) (S : Sys) (cutoff : ℚ) :
+    runAW junk init delta (tableAccept (distTable S) (cutoff * cutoff)) S.natoms (candsA srcBinParams S cutoff)
+      = nlistCall junk (.given init) (.given delta) S cutoff ∧
+    absRows (nlistCall junk (.given init) (.given delta) S cutoff).rows = nlistL S cutoff := by
+  have hcs : ∀ uv ∈ candsA srcBinParams S cutoff, uv.1 < S.natoms ∧ uv.2 < S.natoms := by
+    rw [cands_table_eq]; exact fun uv h => cands_lt S cutoff uv h
+  have e : nlistCall junk (.given init) (.given delta) S cutoff = nlistA junk init delta S cutoff := by
+    unfold nlistCall nlistFull nlistA initialsizeOf deltasizeOf
+    rw [cands_table_eq]
+  refine ⟨?_, ?_⟩
+  · unfold nlistCall nlistFull runA initialsizeOf deltasizeOf
+    exact runAW_congr junk init delta _ _ _ _ (fun uv h => table_accept_as_modelled S _ uv (hcs uv h).1 (hcs uv h).2)
+  · rw [e]; exact storage_refines junk init delta hd S cutoff
+
+/-- **nlistCall_shape**: the array behind the returned `NeighborList`, for every call form: one row per atom, every row of width
+    `maxneighbors + 1`, and `coord[i]` (column 0) is the length of `[i]`. -/
+theorem nlistCall_shape (junk : Nat → Nat → Nat) (a b : SizeArg) (hb : ∀ n, b = .given n → 1 ≤ n) (S : Sys) (cutoff : ℚ) :
+    (nlistCall junk a b S cutoff).rows.length = S.natoms ∧
+    ∀ r ∈ (nlistCall junk a b S cutoff).rows,
+      r.length = (nlistCall junk a b S cutoff).maxn + 1 ∧ coordOf r = (absRow r).length := by
+  have hd : 1 ≤ deltasizeOf b := by
+    cases b with
+    | given n => exact hb n rfl
+    | viaBuild => exact src_defaults_valid.2.2.2
+    | viaNlist => exact src_defaults_valid.2.1
+  have e : nlistCall junk a b S cutoff = nlistA junk (initialsizeOf a) (deltasizeOf b) S cutoff := by
+    unfold nlistCall nlistFull nlistA
+    rw [cands_table_eq]
+  rw [e]
+  exact storage_coord junk (initialsizeOf a) (deltasizeOf b) hd S cutoff
+
+/-- the pair list of the driver's request is `candsA srcBinParams` by definition, and a size left out on the wire is the default
+    standing in the source. -/
+example (S : Sys) (cutoff : ℚ) : candsA srcBinParams S cutoff =
+    (occupied (entries S (mkGrid S cutoff))).flatMap
+      (binPairsA (mkGrid S cutoff) (fillBins srcBinParams (entries S (mkGrid S cutoff)))) := rfl
+example (junk : Nat → Nat → Nat) (a b : SizeArg) (S : Sys) (cutoff : ℚ) :
+    nlistCall junk a b S cutoff = nlistCall junk (.given (initialsizeOf a)) (.given (deltasizeOf b)) S cutoff := rfl
+
+
+/-! ### statement audit: every hypothesis of the theorems above discharged on concrete systems -/
+
+section audit_examples
+
+/-- tilted cell, non-zero origin, periodic in the first and third direction only, three atoms (relative coordinates
+    `(1/8, 1/8, 1/10)`, `(7/8, 1/8, 1/10)`, `(1/2, 1/2, 9/10)`); atoms 0 and 1 are 3 apart directly and 1 apart through the
+    image along the first cell vector. -/
+def audSys : Sys :=
+  ⟨⟨⟨4, 0, 0⟩, ⟨1, 4, 0⟩, ⟨1/2, 1, 5⟩⟩, ⟨1, -2, 1/2⟩, true, false, true,
+   [⟨67/40, -7/5, 1⟩, ⟨187/40, -7/5, 1⟩, ⟨79/20, 9/10, 5⟩]⟩
+
+theorem audSys_inside : ∀ i, i < audSys.natoms → InsideCell audSys (audSys.posOf i) := by
+  intro i hi
+  have : i = 0 ∨ i = 1 ∨ i = 2 := by
+    have : audSys.natoms = 3 := rfl
+    omega
+  rcases this with rfl | rfl | rfl
+  · exact ⟨⟨1/8, 1/8, 1/10⟩, by norm_num, by norm_num, by norm_num, by norm_num, by norm_num, by norm_num,
+      by simp [audSys, Sys.posOf]; norm_num⟩
+  · exact ⟨⟨7/8, 1/8, 1/10⟩, by norm_num, by norm_num, by norm_num, by norm_num, by norm_num, by norm_num,
+      by simp [audSys, Sys.posOf]; norm_num⟩
+  · exact ⟨⟨1/2, 1/2, 9/10⟩, by norm_num, by norm_num, by norm_num, by norm_num, by norm_num, by norm_num,
+      by simp [audSys, Sys.posOf]; norm_num⟩
+
+example : nlistL audSys (3/2) = [[1], [0], []] ∧ nlistL audSys (5/2) = [[1, 2], [0, 2], [0, 1]] ∧ dist2 audSys 0 1 = 1 := by
+  decide +kernel
+
+example : Inv 3 (insertPairL [[1], [0], []] 2 0) :=
+  insert_inv (n := 3) (rows := [[1], [0], []]) ⟨rfl, by
+    intro i hi
+    have : i = 0 ∨ i = 1 ∨ i = 2 := by omega
+    rcases this with rfl | rfl | rfl <;> simp [rowOf]⟩ (by decide) (by decide) (by decide)
+example : (1 : Nat) ≠ 0 ∧ dist2 audSys 0 1 < 3/2 * (3/2) := alg_sound audSys (3/2) 0 1 (by decide +kernel)
+example : rowOf (runL audSys (9/4) [(0, 1), (2, 1), (1, 0), (0, 1)]) 0 = comparedFilter audSys (9/4) [(0, 1), (2, 1), (1, 0), (0, 1)] 0 :=
+  alg_eq_compared audSys (9/4) _ (by decide) 0 (by decide)
+example : runL audSys (25/4) [(0, 1), (2, 1), (0, 2)] = runL audSys (25/4) [(0, 2), (0, 1), (0, 1), (2, 1)] :=
+  alg_order_irrelevant audSys (25/4) _ _ (by decide) (by intro uv; simp only [List.mem_cons, List.not_mem_nil, or_false]; tauto)
+example := storage_refines (fun i k => 7 * i + k) 1 1 (le_refl 1) audSys (5/2)
+example := storage_coord (fun i k => 7 * i + k) 1 1 (le_refl 1) audSys (5/2)
+example : absRows (nlistA (fun i k => 7 * i + k) 1 1 audSys (5/2)).rows = [[1, 2], [0, 2], [0, 1]] ∧
+    (nlistA (fun i k => 7 * i + k) 1 1 audSys (5/2)).maxn = 2 := by decide +kernel
+/-- two points in neighbouring bins. -/
+example : |binIdx 0 1 5 (5/4) - binIdx 0 1 5 (3/4)| ≤ 1 := adjacent_bins 0 1 5 (by norm_num) (3/4) (5/4) (by norm_num)
+example : binIdx 0 1 5 (5/4) = 1 ∧ binIdx 0 1 5 (3/4) = 0 := by decide +kernel
+/-- the image of atom 1 shifted by minus the first cell vector is close to atom 0 and is a ghost entry of the sweep. -/
+example := ghost_exists audSys (3/2) (by norm_num) 0 1 (by decide) (audSys_inside 0 (by decide)) (-1, 0, 0) (by decide)
+  (by decide +kernel)
+example : (0, 1) ∈ cands audSys (3/2) ∨ (1, 0) ∈ cands audSys (3/2) :=
+  compared_complete audSys (3/2) (by norm_num) audSys_inside 0 1 (by decide) (by decide) (by decide) (by decide +kernel)
+example : rowOf (nlistL audSys (5/2)) 2 = nlistSpec audSys (5/2) 2 :=
+  alg_complete audSys (5/2) (by norm_num) audSys_inside 2 (by decide)
+example := nlistA_complete (fun i k => 7 * i + k) 1 1 (le_refl 1) audSys (5/2) (by norm_num) audSys_inside 2 (by decide)
+example := nlistFull_complete (fun i k => 7 * i + k) 1 1 (le_refl 1) audSys (5/2) (by norm_num) audSys_inside 2 (by decide)
+example := nlistCall_complete (fun i k => 7 * i + k) .viaNlist (.given 1) (by intro n h; cases h; decide) audSys (5/2) (by norm_num)
+  audSys_inside 2 (by decide)
+example := nlistCall_form_irrelevant (fun i k => 7 * i + k) (fun _ _ => 0) .viaNlist (.given 1) (.given 1) .viaBuild
+  (by intro n h; cases h; decide) (by intro n h; cases h) audSys (5/2) (by norm_num) audSys_inside 2 (by decide)
+example : ∀ b, membersA (fillBins srcBinParams (entries audSys (mkGrid audSys (3/2)))) b = members (entries audSys (mkGrid audSys (3/2))) b := by
+  obtain ⟨s, h⟩ := src_bins_sound
+  exact fun b => bins_refine srcBinParams s h _ b
+/-- a history (move, new periodicity, an earlier call) ending in the state `audSys`. -/
+example := answers_complete ⟨audSys.vects, audSys.origin, true, true, true, audSys.pos.set 2 ⟨0, 0, 0⟩⟩
+  [.query 1, .setPos 2 ⟨79/20, 9/10, 5⟩, .setPbc true false true] (5/2) (by norm_num) audSys_inside
+example := answers_history_independent ⟨audSys.vects, audSys.origin, true, true, true, audSys.pos.set 2 ⟨0, 0, 0⟩⟩ audSys
+  [.query 1, .setPos 2 ⟨79/20, 9/10, 5⟩, .setPbc true false true] [] (5/2) rfl
+example : rowOf (nlistL (scaleSys (3/2) audSys) (3/2 * (5/2))) 1 = rowOf (nlistL audSys (5/2)) 1 :=
+  nlist_scale_invariant (3/2) (by norm_num) audSys (5/2) (by norm_num) audSys_inside 1 (by decide)
+example : nlistSpec (translateSys ⟨1, -2, 1/3⟩ audSys) (5/2) 1 = nlistSpec audSys (5/2) 1 :=
+  spec_translate_invariant ⟨1, -2, 1/3⟩ audSys (5/2) 1 (by decide)
+example : rowOf (nlistL (translateSys ⟨1, -2, 1/3⟩ audSys) (5/2)) 1 = rowOf (nlistL audSys (5/2)) 1 :=
+  nlist_translate_invariant ⟨1, -2, 1/3⟩ audSys (5/2) (by norm_num) audSys_inside 1 (by decide)
+example : nlistSpec (mirrorSys ⟨-1, 1, -1⟩ audSys) (5/2) 1 = nlistSpec audSys (5/2) 1 :=
+  spec_mirror_invariant ⟨-1, 1, -1⟩ (by unfold IsSign; norm_num) audSys (5/2) 1
+example : rowOf (nlistL (mirrorSys ⟨-1, 1, -1⟩ audSys) (5/2)) 1 = rowOf (nlistL audSys (5/2)) 1 :=
+  nlist_mirror_invariant ⟨-1, 1, -1⟩ (by unfold IsSign; norm_num) audSys (5/2) (by norm_num) audSys_inside 1 (by decide)
+example := nlist_farface_invariant true false true audSys (5/2) (by norm_num) audSys_inside 1 (by decide)
+example := nlist_reorder_invariant audSys (5/2) (by norm_num) audSys_inside 1 (by decide)
+example := nlist_axes_invariant audSys (5/2) (by norm_num) audSys_inside 1 (by decide)
+example : (mirrorSys ⟨-1, 1, -1⟩ audSys).vects.r2 = ⟨-1/2, 1, -5⟩ ∧ (farFaceSys true false true audSys).origin = ⟨11/2, -1, 11/2⟩ := by
+  decide +kernel
+/-- a scan that runs to the end of the filled part of a row: entries 1, 3 (columns 1, 2), new entry 5. -/
+example : scanLoopA [2, 1, 3, 0] 5 2 1 = (true, 3) :=
+  scan_exhausted [2, 1, 3, 0] 5 2 1 (by
+    intro k h1 h2
+    have : k = 1 ∨ k = 2 := by omega
+    rcases this with rfl | rfl <;> decide)
+
+/-- a negative factor (the specification only needs `s ≠ 0`). -/
+example : nlistSpec (scaleSys (-2) audSys) (-2 * (5/2)) 1 = nlistSpec audSys (5/2) 1 :=
+  spec_scale_invariant (-2) (by norm_num) audSys (5/2) 1
+example := driver_pipeline_as_modelled (fun i k => 7 * i + k) 1 1 (le_refl 1) audSys (5/2)
+example := nlistCall_shape (fun i k => 7 * i + k) .viaBuild (.given 1) (by intro n h; cases h; decide) audSys (5/2)
+example : tableAccept (distTable audSys) (25/4) (2, 0) = accept audSys (25/4) (2, 0) :=
+  table_accept_as_modelled audSys (25/4) (2, 0) (by decide) (by decide)
+example : accept audSys (25/4) (2, 0) = true ∧ accept audSys (9/4) (2, 0) = false := by decide +kernel
+
+end audit_examples
+
 end Atomman.C03
